@@ -39,6 +39,9 @@ impl LogWriter for TestWriter {
     fn write(&self, now: &mut DeferredNow, record: &Record) -> std::io::Result<()> {
         buffer_with(|tl_buf| match tl_buf.try_borrow_mut() {
             Ok(mut buffer) => {
+                // a panic while formatting an earlier record (caught by the caller)
+                // can have left a part of that record behind
+                buffer.clear();
                 (self.format)(&mut *buffer, now, record)
                     .unwrap_or_else(|e| eprint_err(ErrorCode::Format, "formatting failed", &e));
                 if self.stdout {
